@@ -13,7 +13,7 @@ pub const DEF: PropDef = PropDef {
     id: "C07",
     jobs,
     required,
-    rule: "one case = a chain of up to 4 generations of CodecRegion<DictionaryCodec>: generation 0 is 1..8 default regions fed byte strings from a pool (all 256 first-byte values, lengths 0..8, strings equal to / prefixed by frequent strings, single bytes), generation g+1 is merge_regions over generation g's regions. The model records, per region, the multiset of strings and the set of first bytes it absorbed. After every push every issued index is read back byte for byte. A push may panic only if the region came from merge_regions and the string is non-empty with a first byte that none of its source regions saw as a first byte (only then can it collide with a tag); default and cleared regions never refuse; the empty string is never refused. Stored cost = growth of the used bytes reported by heap_size across the push; a string must cost exactly 1 byte when (dominant regime) it accounts for >= 75 % of the pushes into the sources and some first-byte value is free, or (exact regime, <= 512 distinct strings in the sources) its count is strictly above the (F+1)-th largest count, F being the number of free first-byte values. Non-trivial = at least one dictionary hit and one literal in a merged region; distinct = distinct hash of the operation list.",
+    rule: "one case = a chain of up to 4 generations of CodecRegion<DictionaryCodec>: generation 0 is 1..8 default regions fed byte strings from a pool (all 256 first-byte values, lengths 0..8, strings equal to / prefixed by frequent strings, single bytes), generation g+1 is merge_regions over generation g's regions. The model records, per region, the multiset of strings and the set of first bytes it absorbed. After every push every issued index is read back byte for byte. A push may panic only if the region came from merge_regions and the string is non-empty with a first byte that none of its source regions saw as a first byte (only then can it collide with a tag); default and cleared regions never refuse; the empty string is never refused. Stored cost = extent (end - start) of the returned index in the inner byte region; a string must cost exactly 1 byte when (dominant regime) it accounts for >= 75 % of the pushes into the sources and some first-byte value is free, or (exact regime, <= 512 distinct strings in the sources) its count is strictly above the (F+1)-th largest count, F being the number of free first-byte values. Non-trivial = at least one dictionary hit and one literal in a merged region; distinct = distinct hash of the operation list.",
     assumptions: &[
         "the state of a region after a refused push is unspecified; hostile pushes go to a twin merged from the same sources, which is dropped after a refusal",
         "beyond 512 distinct strings the heavy-hitter summary is approximate and only the dominant-string claim is checked",
@@ -126,11 +126,12 @@ impl Obs {
         }
     }
     fn push(&mut self, ctx: &mut Ctx, s: &[u8]) -> Outcome {
-        let before = heap_of(&self.r).used;
         let r = &mut self.r;
         match panics::catch(|| r.push(s)) {
             Ok(idx) => {
-                let cost = heap_of(&self.r).used - before;
+                // the bytes this push stored: the extent of the returned index in the inner byte
+                // region (not heap_size, which may also account the codec's own tables)
+                let cost = idx.1 - idx.0;
                 if self.issued.len() < 60 {
                     ctx.log(format!("{}.push({:?}) -> {:?} ({} bytes stored)", self.name, s, idx, cost));
                 }
